@@ -43,6 +43,7 @@ def main():
         names = [c.name for c in cs if (args.prop in c.props if wanted is None else c.name in wanted)]
         if args.only:
             names = [n for n in names if n in args.only.split(',')]
+        report.case_counts = {c.name: len(c.cases) for c in cs}
         thorough = args.tier == 'thorough'
         opts = {'timeout_ms': 60000 if thorough else 10000, 'seed': seed,
                 'bounded_limit': 40000 if thorough else 4000, 'bounded_budget_s': 120 if thorough else 15,
